@@ -155,12 +155,12 @@ def set_row_metadata(m, name, fn):
     setattr(m, name, [r[:-1] + (fn(),) for r in rows])
 
 
-def gen_arb(rng, min_prov=0):
+def gen_arb(rng, min_prov=0, allow_big=True):
     """RowModel (valid or not) + build options."""
     r = rng.random()
     mode = "valid" if r < 0.4 else "mixed" if r < 0.6 else "junk" if r < 0.9 else "empty"
     wide = rng.random() < 0.4
-    big = rng.random() < 0.04
+    big = rng.random() < 0.04 and allow_big
     if mode in ("valid", "mixed"):
         if big:
             m = gen.gen_full(rng, max_nodes=40, max_bp=20, max_sites=30, migrations=True)
@@ -519,8 +519,8 @@ def check_file_against_dict(ctx, what, b, tc):
 # =============================================================================================
 
 class Obj:
-    def __init__(self, rng, ctx, min_prov=0, want_ts=None):
-        self.m, self.opts = gen_arb(rng, min_prov=min_prov)
+    def __init__(self, rng, ctx, min_prov=0, want_ts=None, allow_big=True):
+        self.m, self.opts = gen_arb(rng, min_prov=min_prov, allow_big=allow_big)
         self.tc = build_tc(self.m, self.opts)
         self.ts = None
         self.valid = False
@@ -1378,7 +1378,7 @@ def check_tables_pair(ctx, a, b, kind, touched):
 
 
 def run_equality(case, ctx, rng, tmp):
-    o = Obj(rng, ctx, min_prov=1, want_ts=False)
+    o = Obj(rng, ctx, min_prov=1, want_ts=False, allow_big=False)   # assert_equals walks rows in Python
     a, m = o.tc, o.m
     ctx.sig(repr(o.snap.cm), nontrivial=o.nrows() > 0)
     # identical twin built independently: equal under every flag set
